@@ -135,6 +135,7 @@ def generate() -> dict:
         stmts, fresh, note = ["mutate"], False, f"{type(e).__name__}: {e}"
     swap, swap_note = swap_ir()
     shape, shape_note = adapt_shape()
+    members = inline_members()
     note = "; ".join(x for x in (note, swap_note, shape_note) if x)
     text = HEADER.format(src="src/spox/_public.py, src/spox/_adapt.py", tool="translator/inline_facts.py") + (
         "\nimport SpoxModel.Model.Inline\n\nnamespace Generated.InlineFacts\nopen Inline\n\n"
@@ -149,10 +150,14 @@ def generate() -> dict:
         "    is made of): where the target and source versions come from, which guards return the build's\n"
         "    nodes unconverted, which guard calls the converter, how many `return protos` there are -/\n"
         f"def adaptShape : List (String × String) := {lean_pairs(shape)}\n\n"
+        "/-- inventory of class `spox._inline._Inline` (methods, properties, class-level attributes, nested classes)\n"
+        "    and of every attribute WRITE on the node object in `_Inline`'s methods and in `adapt_inline`\n"
+        "    (`<function>:<attribute>`): a new override, cache or class-level attribute shows up here -/\n"
+        f"def inlineMembers : List String := {lean_list([lean_str(m) for m in members])}\n\n"
         "end Generated.InlineFacts\n"
     )
     write_if_changed(GEN / "InlineFacts.lean", text)
-    return {"stmts": stmts, "copyFresh": fresh, "swapIR": swap, "adaptShape": shape, "sourceHashes": source_hashes(), "note": note}
+    return {"stmts": stmts, "copyFresh": fresh, "swapIR": swap, "adaptShape": shape, "inlineMembers": members, "sourceHashes": source_hashes(), "note": note}
 
 
 def lean_str(x: str) -> str:
@@ -204,6 +209,43 @@ def adapt_shape():
         return out, ""
     except Exception as e:  # noqa: BLE001
         return [("opaque", f"{type(e).__name__}")], f"{type(e).__name__}: {e}"
+
+
+def inline_members() -> list:
+    try:
+        out = []
+        mod = parse("src/spox/_inline.py")
+        cls = next(n for n in mod.body if isinstance(n, ast.ClassDef) and n.name == "_Inline")
+        out.append("bases:" + ",".join(ast.unparse(b) for b in cls.bases))
+        for n in cls.body:
+            if isinstance(n, (ast.FunctionDef, ast.AsyncFunctionDef)):
+                deco = ",".join(ast.unparse(d) for d in n.decorator_list)
+                out.append(f"def:{n.name}" + (f"@{deco}" if deco else ""))
+                me = n.args.args[0].arg if n.args.args else "self"
+                for w in ast.walk(n):
+                    if isinstance(w, ast.Attribute) and isinstance(w.ctx, (ast.Store, ast.Del)) and isinstance(w.value, ast.Name) and w.value.id == me:
+                        out.append(f"write:{n.name}:{w.attr}")
+                    if isinstance(w, ast.Call) and dotted(w.func) in ("setattr", "object.__setattr__", "delattr"):
+                        out.append(f"write:{n.name}:<setattr>")
+            elif isinstance(n, ast.ClassDef):
+                out.append(f"class:{n.name}")
+            elif isinstance(n, ast.AnnAssign) and isinstance(n.target, ast.Name):
+                out.append(f"attr:{n.target.id}" + ("=" if n.value is not None else ""))
+            elif isinstance(n, ast.Assign):
+                out += [f"attr:{t.id}=" for t in n.targets if isinstance(t, ast.Name)]
+            elif not (isinstance(n, ast.Expr) and isinstance(n.value, ast.Constant)):
+                out.append("stmt:" + type(n).__name__)
+        amod = parse("src/spox/_adapt.py")
+        fn = next(f for f in amod.body if isinstance(f, ast.FunctionDef) and f.name == "adapt_inline")
+        me = fn.args.args[0].arg
+        for w in ast.walk(fn):
+            if isinstance(w, ast.Attribute) and isinstance(w.ctx, (ast.Store, ast.Del)) and isinstance(w.value, ast.Name) and w.value.id == me:
+                out.append(f"write:adapt_inline:{w.attr}")
+            if isinstance(w, ast.Call) and dotted(w.func) in ("setattr", "object.__setattr__", "delattr"):
+                out.append("write:adapt_inline:<setattr>")
+        return sorted(set(out))
+    except Exception as e:  # noqa: BLE001
+        return [f"opaque:{type(e).__name__}"]
 
 
 COVERED = [("src/spox/_adapt.py", "adapt_inline"), ("src/spox/_inline.py", "rename_in_graph"), ("src/spox/_inline.py", "_Inline"),
